@@ -52,6 +52,11 @@ func (env *Zlisp) SourceExpressions(expressions []Sexp) error {
 	if err != nil {
 		return err
 	}
+	if len(gen.instructions) == 0 {
+		// nothing to run: Run would hand back whatever is on top of the stack
+		env.datastack.PushExpr(SexpNull)
+		return nil
+	}
 	//P("debug: in SourceExpressions, FROM expressions='%s'", (&SexpArray{Val: expressions, Env: env}).SexpString(0))
 	//P("debug: in SourceExpressions, gen=")
 	//DumpFunction(ZlispFunction(gen.instructions), -1)
@@ -104,16 +109,23 @@ func SourceFileFunction(env *Zlisp, name string, args []Sexp) (Sexp, error) {
 		return SexpNull, WrongNargs
 	}
 
+	// every sourced file pushes its value: the value of source is the last
+	// one, the others are dropped.
+	start := env.datastack.Size()
 	for _, v := range args {
 		if err := env.sourceItem(v); err != nil {
+			env.datastack.TruncateToSize(start)
 			return SexpNull, err
 		}
 	}
-
+	if env.datastack.Size() <= start {
+		return SexpNull, nil
+	}
 	result, err := env.datastack.PopExpr()
 	if err != nil {
 		return SexpNull, err
 	}
+	env.datastack.TruncateToSize(start)
 	return result, nil
 }
 
